@@ -30,6 +30,8 @@ def leaves(S) -> list[tuple[tuple[int, ...], str]]:
     if t == 'leaf':
         return [(tuple(S['shape']), S['dtype'])]
     if t == 'stokes':
+        if S.get('dtypes'):
+            return [(tuple(S['shape']), d) for d in S['dtypes']]
         return [(tuple(S['shape']), S['dtype'])] * len(S['kind'])
     if t in ('tuple', 'list'):
         return [l for it in S['items'] for l in leaves(it)]
@@ -63,6 +65,11 @@ def map_leaves(S, f):
         sh, dt = f(tuple(S['shape']), S['dtype'])
         return leaf(sh, dt)
     if t == 'stokes':
+        if S.get('dtypes'):
+            res = [f(tuple(S['shape']), d) for d in S['dtypes']]
+            out = stokes(S['kind'], res[0][0], res[0][1])
+            out['dtypes'] = [r_[1] for r_ in res]
+            return out
         sh, dt = f(tuple(S['shape']), S['dtype'])
         return stokes(S['kind'], sh, dt)
     if t in ('tuple', 'list'):
@@ -83,7 +90,10 @@ def replace_leaves(S, new_leaves):
             return leaf(sh, dt)
         if t == 'stokes':
             got = [next(it) for _ in S['kind']]
-            return stokes(S['kind'], got[0][0], got[0][1])
+            out = stokes(S['kind'], got[0][0], got[0][1])
+            if len({g[1] for g in got}) > 1:
+                out['dtypes'] = [g[1] for g in got]
+            return out
         if t in ('tuple', 'list'):
             return {'t': t, 'items': [rec(x) for x in S['items']]}
         if t == 'dict':
@@ -105,7 +115,7 @@ def equal(S1, S2) -> bool:
         return (
             S1['kind'] == S2['kind']
             and list(S1['shape']) == list(S2['shape'])
-            and S1['dtype'] == S2['dtype']
+            and [d for _, d in leaves(S1)] == [d for _, d in leaves(S2)]
         )
     if t in ('tuple', 'list'):
         return len(S1['items']) == len(S2['items']) and all(
@@ -143,6 +153,8 @@ def to_jax(S):
     if t == 'leaf':
         return jax.ShapeDtypeStruct(tuple(S['shape']), jnp.dtype(S['dtype']))
     if t == 'stokes':
+        if S.get('dtypes'):
+            return _stokes_cls(S['kind'])(*[jax.ShapeDtypeStruct(tuple(S['shape']), jnp.dtype(d)) for d in S['dtypes']])
         sds = jax.ShapeDtypeStruct(tuple(S['shape']), jnp.dtype(S['dtype']))
         return _stokes_cls(S['kind'])(*([sds] * len(S['kind'])))
     if t == 'tuple':
